@@ -67,7 +67,7 @@ Definition init (n : nat) : state :=
   {| st_ps := repeat ps0 n; st_pk := None; st_sap := None; st_dk := None; st_help_skip := false |}.
 
 (* ---- outcomes: the path a call took ---- *)
-Inductive errk := EPre | EStaleKey | EBroken | EPrintFail | EPost | EHelpArgs.
+Inductive errk := EPre | EStaleKey | EBroken | EPrintFail | EPost | EHelpArgs | EUnknown (k : str).
 Inductive out :=
 | OOk (shtab_key : bool)
 | OErr (e : errk)
@@ -155,9 +155,11 @@ Record ictx := { ic_sel : list (str * str);   (* class option -> selected class 
                  ic_given : list str;          (* dotted names that received a value *)
                  ic_mention : list str;        (* sub-commands addressed through dotted keys *)
                  ic_shtab_key : bool;          (* the key print_shtab was accepted *)
-                 ic_unknown : bool }.          (* a dict-like source had a key no action claims: kept in the
+                 ic_unknown : option str }.          (* a dict-like source had a key no action claims: kept in the
                                                   namespace, rejected by check_values ("Key ... is not expected") *)
-Definition ic0 := {| ic_sel := []; ic_given := []; ic_mention := []; ic_shtab_key := false; ic_unknown := false |}.
+Definition ic0 := {| ic_sel := []; ic_given := []; ic_mention := []; ic_shtab_key := false; ic_unknown := None |}.
+
+Definition is_unk (c : ictx) : bool := match ic_unknown c with Some _ => true | None => false end.
 
 Inductive ires := IOk (c : ictx) | IBad | IUnknown.
 
@@ -242,7 +244,8 @@ Fixpoint apply_items (f : ictx -> str -> str -> ires) (u : umode) (c : ictx) (it
           match u with
           | UIgnore => apply_items f u c r
           | UKeep => apply_items f u {| ic_sel := ic_sel c; ic_given := ic_given c; ic_mention := ic_mention c;
-                                        ic_shtab_key := ic_shtab_key c; ic_unknown := true |} r
+                                        ic_shtab_key := ic_shtab_key c;
+                                        ic_unknown := match ic_unknown c with Some x => Some x | None => Some k end |} r
           end
       end
   end.
@@ -257,13 +260,21 @@ Definition selected (D : decl) (chosen : option str) (c : ictx) : option str :=
   end.
 
 Definition req_ok (D : decl) (sel : option str) (c : ictx) : bool :=
-  negb (ic_unknown c) &&
+  negb (is_unk c) &&
   forallb (fun r => mem_str r (ic_given c)) (pd_req (d_root D)) &&
   match sel with
   | Some x => match alookup x (d_subs D) with
               | Some spd => forallb (fun r => mem_str (x ++ [46%N] ++ r) (ic_given c)) (pd_req spd)
               | None => true end
   | None => true
+  end.
+
+(* how validation ends: the first key no action claims is named (check_values walks the keys in order) before
+   missing required keys are looked at *)
+Definition final_out (D : decl) (sel : option str) (c : ictx) : out :=
+  match ic_unknown c with
+  | Some k => OErr (EUnknown k)
+  | None => if req_ok D sel c then OOk (ic_shtab_key c) else OErr EPost
   end.
 
 Definition has_default (pd : pdecl) : bool :=
@@ -436,7 +447,7 @@ Fixpoint scan_root (fx : fixes) (D : decl) (i : nat) (hs : bool) (toks : list to
                           | Some x => x | None => ic0 end in
                 let here := ic_mention hc in
                 match consume D pend (fun x => mem_str x here)
-                              (match here with [] => false | _ => true end) (ic_unknown hc) true
+                              (match here with [] => false | _ => true end) (is_unk hc) true
                               (match items with [] => true | _ => false end) cv with
                 | Some (o, pend', cv') =>
                     {| so_res := SStop o; so_c := c; so_unk := unk; so_pend := pend'; so_chosen := None;
@@ -481,15 +492,15 @@ Definition parse_common (D : decl) (pend : pending) (chosen : option str) (c : i
   let sel := selected D chosen c in
   match d_subs D, sel with
   | _ :: _, None => if d_subreq D then (OErr EPre, pend, cv) else
-      match consume D pend (fun _ => false) false (ic_unknown c) false false cv with
+      match consume D pend (fun _ => false) false (is_unk c) false false cv with
       | Some r => r
-      | None => if req_ok D sel c then (OOk (ic_shtab_key c), pend, cv) else (OErr EPost, pend, cv)
+      | None => (final_out D sel c, pend, cv)
       end
   | _, _ =>
       match consume D pend (fun x => match sel with Some y => str_eqb x y | None => false end)
-                    (match sel with Some _ => true | None => false end) (ic_unknown c) false false cv with
+                    (match sel with Some _ => true | None => false end) (is_unk c) false false cv with
       | Some r => r
-      | None => if req_ok D sel c then (OOk (ic_shtab_key c), pend, cv) else (OErr EPost, pend, cv)
+      | None => (final_out D sel c, pend, cv)
       end
   end.
 
